@@ -104,7 +104,7 @@ REACH = ["token_rotations", "value_maintenance_runs", "store_accepted_valid_toke
          "version_conflict_newer_wins", "version_newer_replaced", "forged_signature_filtered", "find_checked_signed",
          "find_offered_older_and_newer", "find_forged_offered_and_filtered", "store_peer_accepted",
          "store_peer_foreign_mid_refused", "store_peer_bad_token_refused", "expired_value_removed_by_maintenance",
-         "storage_clean_removed_expired", "storage_put_older_ignored", "real_timer_rotation", "real_timer_maintenance"]
+         "storage_clean_removed_expired", "storage_put_older_ignored", "real_timer_rotation", "real_timer_maintenance", "routing_table_learnt_closer_nodes", "republished_with_other_lifetime"]
 
 PREFIX_LEN = 22
 MSG_STORE, MSG_FIND_REQ, MSG_FIND_RESP, MSG_STORE_PEER = 3, 5, 6, 7
@@ -240,6 +240,13 @@ def _directed(variant: int, seed: int, tier: str) -> dict:  # noqa: PLR0915
     b.apeer(2, "own"); pause()
     b.ops.append(["replay", 0, "orig"]); pause()
     b.astore(0, "r1", [["u", 44]], tok="fresh"); pause()
+    # re-publication: the lifetime of a value is the one granted by the LAST accepted store.  First stored while the node knows few
+    # nodes closer to the key, then its routing table learns a dozen closer ones, then the identical bytes are stored again
+    b.astore(3, "r6", [["u", 50]], tok="fresh"); pause()
+    b.ops.append(["fillrt", 3, "r6", 14])
+    b.astore(3, "r6", [["same_again"]], tok="fresh"); pause()
+    b.ops.append(["clock", 3, 1900]); b.ops.append(["maintain", 3])
+    b.ops.append(["clock", 3, 1800]); b.ops.append(["maintain", 3])
     # read path with a lying responder
     b.store(0, "a0", True); b.sleep(1.2); b.store(0, "a0", True); b.sleep(0.5)
     b.ops.append(["evil", "a0", [["forged", 0, "hi"], ["foreign", 0], ["flip", 0], ["rollback", 0], ["s", 0, "base", 4],
@@ -510,6 +517,7 @@ class Harness:
         self.intents: dict = {}         # sha1(datagram)+src -> label
         self.keys: dict = {}
         self.counter = 0
+        self.granted = {}               # (node name, value bytes) -> (time of the last accepted store-request, lifetime it was granted)
         self.stats: dict = {}
         self.in_timer = True
         self.prefix = b""
@@ -518,6 +526,8 @@ class Harness:
         self.errors: list = []
 
     # ------------------------------------------------------------------ bookkeeping helpers
+
+
     def stat(self, k: str) -> None:
         self.stats[k] = self.stats.get(k, 0) + 1
 
@@ -590,6 +600,15 @@ class Harness:
                                    f"{name} right after value_maintenance: key {_hx(key)} still holds expired value(s) at "
                                    f"list index {bad}; list (id, age, max_age) = {shape}")
             del cls
+        for st in ov.storages.values():
+            for key, lst in st.items.items():
+                for v in lst:
+                    g = self.granted.get((name, bytes(v.data)))
+                    if g is not None and now - g[0] > g[1] + 1e-6:
+                        self.c.violate("lifetime", "value_outlives_lifetime_granted_by_last_store",
+                                       f"{name} right after value_maintenance: a value under key {_hx(key)} was last stored (accepted "
+                                       f"store-request) {now - g[0]:.0f} s ago with a lifetime of {g[1]} s and is still there "
+                                       f"(the entry says age {now - v.last_update:.0f}, max_age {v.max_age})")
         after = self.observe(name, ov, "maintenance")
         if len(after) < len(before):
             self.c.probe("expired_value_removed_by_maintenance")
@@ -636,9 +655,24 @@ class Harness:
             pass
         if kind == "store":
             rec["before"] = self.observe(name, ov, "before_store_request")
+            rec["granted"] = self.lifetime_now(ov, rec["parsed"].target) if rec["parsed"] is not None else None
         else:
             rec["before"] = self.snap_store(ov)
         return rec
+
+    def lifetime_now(self, ov, target: bytes) -> float | None:  # noqa: ANN001
+        """The lifetime a store accepted NOW is granted, worked out from the node's routing table by brute force."""
+        from ipv8.dht.community import MAX_ENTRY_AGE, TARGET_NODES
+        from ipv8.dht.routing import NODE_STATUS_BAD, distance
+        from ipv8.messaging.interfaces.udp.endpoint import UDPv4Address
+        rt = ov.routing_tables.get(UDPv4Address)
+        if rt is None:
+            return None
+        live = [nd for b in rt.trie.values() for nd in b.nodes.values() if nd.status != NODE_STATUS_BAD]
+        live.sort(key=lambda nd: distance(nd.id, target))
+        mine = distance(rt.my_node_id, target)
+        closer = sum(1 for nd in live[:20] if distance(nd.id, target) < mine)
+        return MAX_ENTRY_AGE // 2 ** max(0, closer - TARGET_NODES + 1)
 
     def classify(self, name, src: tuple, kb: bytes | None, token: bytes | None, auth: bool) -> str:  # noqa: ANN001
         if kb is None or token is None:
@@ -699,6 +733,14 @@ class Harness:
         c.nontrivial(f"store/{verdict}/{rec['intent']}/{','.join(kinds)}/{'changed' if did else 'same'}")
         self.stat(f"store:{verdict}:{'changed' if did else 'unchanged'}")
         self.world.trace.event("c15_store", name, verdict, (len(changed), len(removed)))
+        if verdict == "valid" and p is not None and rec.get("granted") is not None and bytes(p.target) == self.key_of("r6"):
+            import time
+            for r in raw:
+                if any(a[1] == r for a in after.values()):
+                    prev = self.granted.get((name, r))
+                    self.granted[(name, r)] = (time.time(), rec["granted"])
+                    if prev is not None and prev[1] != rec["granted"]:
+                        c.probe("republished_with_other_lifetime")
         if did:
             if verdict != "valid":
                 c.violate("authorised_writer", f"store_accepted_without_valid_token:{verdict}",
@@ -862,6 +904,9 @@ class Harness:
             kind = s[0]
             if kind == "u":
                 out.append(mk_unsigned(self._filler(int(s[1]) - 1)))
+                self.last_u = out[-1]
+            elif kind == "same_again":
+                out.append(getattr(self, "last_u", None) or mk_unsigned(self._filler(20)))
             elif kind == "s":
                 signer = self.advs[int(s[1]) % 2]
                 ver = self._version(int(s[1]) % 2, scope, key, s[2])
@@ -1289,6 +1334,28 @@ async def _run_net(c: Case, case: dict) -> dict:  # noqa: C901, PLR0912, PLR0915
                     hs.evil[key] = op[2]
                 else:
                     hs.evil.pop(key, None)
+            elif kind == "fillrt":
+                from ipv8.dht.routing import Node, calc_node_id
+                from ipv8.keyvault.crypto import default_eccrypto
+                from ipv8.messaging.interfaces.udp.endpoint import UDPv4Address
+                h = hs.honest[int(op[1]) % n]
+                key = hs.key_of(op[2])
+                rt = h.ov.routing_tables[UDPv4Address]
+                added = 0
+                for i in range(int(op[3])):
+                    fk = h.call(default_eccrypto.generate_key, "curve25519").pub()
+                    node = None
+                    for _try in range(3000):
+                        addr = UDPv4Address(f"{hs.rng.randrange(11, 200)}.{hs.rng.randrange(256)}.{hs.rng.randrange(256)}.{hs.rng.randrange(1, 255)}",
+                                            8000 + i)
+                        cand = Node(fk, addr)
+                        if calc_node_id(addr, cand.mid)[0] == key[0]:
+                            node = cand
+                            break
+                    if node is not None and rt.add(node) is not None:
+                        added += 1
+                if added:
+                    c.probe("routing_table_learnt_closer_nodes", added)
             elif kind in ("rotate", "maintain"):
                 who = hs.honest if int(op[1]) < 0 else [hs.honest[int(op[1]) % n]]
                 hs.in_timer = False
